@@ -430,6 +430,95 @@ type c05HistCase struct {
 	Cfgs  [][]c05KV  // one configuration map per name
 	Keys  []kit.B    // distinct keys; one reused single-field projection each
 	Lits  [][2]kit.B // per key: the two literals of the filter key:"l0" OR key:"l1"
+	// Mode 0: a fresh Result per step. Mode 1: ONE Result updated in place
+	// from step to step (the name overwritten in its own buffer, the
+	// configuration through SetConfig), as a streaming caller does. Mode 2:
+	// as 1, but every step first replaces the Result by its Clone. Mode 3:
+	// as 1, cloning before every odd step.
+	Mode int `json:",omitempty"`
+}
+
+// c05GenInPlace derives an in-place history from c05GenHist: more
+// configuration keys with values of varying length, and names that are
+// same-length rearrangements of their predecessor (so that a reused name
+// buffer holds a different decomposition at the same length).
+func c05GenInPlace(r *kit.Rand, i int) c05HistCase {
+	c := c05GenHist(r, i)
+	c.Mode = 1 + r.Intn(3)
+	cfgKeys := []string{"k", "goos", "goarch", "pkg"}
+	cfgVals := []string{"1", "2", "x", "linux", "freebsd", "amd64", "arm64", "a=b", "3-4", "example.com/enc", "", "plan9"}
+	for j := range c.Names {
+		if j > 0 && r.Chance(0.6) {
+			prev := []byte(string(c.Names[j-1]))
+			for tries := 0; tries < 8 && len(prev) >= 2; tries++ {
+				p := r.Intn(len(prev) - 1)
+				if prev[p] != prev[p+1] && (strings.IndexByte("/=-", prev[p]) >= 0 || strings.IndexByte("/=-", prev[p+1]) >= 0 || tries >= 6) {
+					prev[p], prev[p+1] = prev[p+1], prev[p]
+					if r.Chance(0.6) {
+						break
+					}
+				}
+			}
+			c.Names[j] = kit.B(prev)
+		}
+		var cfg []c05KV
+		for _, ck := range cfgKeys {
+			if r.Chance(0.7) {
+				cfg = append(cfg, c05KV{K: kit.B(ck), V: kit.B(kit.Pick(r, cfgVals)), File: r.Bool()})
+			}
+		}
+		c.Cfgs[j] = cfg
+	}
+	for _, k := range []string{"goarch", "pkg", "goos", "k"} {
+		have := false
+		for _, kb := range c.Keys {
+			have = have || string(kb) == k
+		}
+		if !have && r.Chance(0.6) {
+			c.Keys = append(c.Keys, kit.B(k))
+			c.Lits = append(c.Lits, [2]kit.B{})
+		}
+	}
+	for i, kb := range c.Keys {
+		var seen []string
+		for j, nm := range c.Names {
+			v, _ := c05RefGet(string(kb), string(nm), c.Cfgs[j])
+			seen = append(seen, v)
+		}
+		c.Lits[i] = [2]kit.B{kit.B(kit.Pick(r, seen)), kit.B(kit.Pick(r, seen))}
+	}
+	return c
+}
+
+// c05Step produces the Result of step j: fresh in mode 0, otherwise prev
+// updated in place (optionally through a Clone first).
+func c05Step(c c05HistCase, j int, prev *benchfmt.Result) *benchfmt.Result {
+	cc := c05Case{Name: c.Names[j], Cfg: c.Cfgs[j]}
+	if c.Mode == 0 || prev == nil {
+		return c05Result(cc)
+	}
+	res := prev
+	if c.Mode == 2 || (c.Mode == 3 && j%2 == 1) {
+		res = prev.Clone()
+	}
+	res.Name = append(res.Name[:0], string(c.Names[j])...)
+	want := map[string]string{}
+	for _, kv := range c.Cfgs[j] {
+		want[string(kv.K)] = string(kv.V)
+	}
+	var drop []string
+	for _, cfg := range res.Config {
+		if _, ok := want[cfg.Key]; !ok {
+			drop = append(drop, cfg.Key)
+		}
+	}
+	for _, k := range drop {
+		res.SetConfig(k, "") // documented: deletes the key
+	}
+	for _, kv := range c.Cfgs[j] {
+		res.SetConfig(string(kv.K), string(kv.V))
+	}
+	return res
 }
 
 func c05GenHist(r *kit.Rand, i int) c05HistCase {
@@ -535,13 +624,19 @@ func c05HistCheck(c c05HistCase) *kit.Fail {
 		}
 		filters[i] = f
 	}
+	var cur *benchfmt.Result
 	for j, nb := range c.Names {
 		name := string(nb)
 		cc := c05Case{Name: nb, Cfg: c.Cfgs[j]}
+		cur = c05Step(c, j, cur)
 		for i, kb := range c.Keys {
 			k := string(kb)
 			want, alt := c05RefGet(k, name, c.Cfgs[j])
-			got := projs[i].Project(c05Result(cc)).Get(fields[i])
+			pres := cur
+			if c.Mode == 0 {
+				pres = c05Result(cc)
+			}
+			got := projs[i].Project(pres).Get(fields[i])
 			if got != want && (alt == nil || got != *alt) {
 				return kit.Failf(c05Sig(k, "projection"), "history %q, step %d: key %q of name %q cfg %v through the reused projection = %q, want %q",
 					c.Names[:j], j, k, name, c.Cfgs[j], got, want)
@@ -553,7 +648,10 @@ func c05HistCheck(c c05HistCase) *kit.Fail {
 					continue // either value is admitted and they decide differently
 				}
 			}
-			res := c05Result(cc)
+			res := cur
+			if c.Mode == 0 {
+				res = c05Result(cc)
+			}
 			m, _ := filters[i].Match(res)
 			if m.Test(0) != wantM || m.All() != wantM || m.Any() != wantM {
 				return kit.Failf(c05Sig(k, "filter"), "history %q, step %d: reused filter %s on name %q cfg %v: Test(0)=%v All=%v Any=%v, want %v (key denotes %q)",
@@ -639,5 +737,18 @@ func TestVerifC05(t *testing.T) {
 		Rule:            "sequences of 2-8 names drawn from a pool of 2-5 names (0-5 segments over sub-name keys {k,j,gomaxprocs,empty} with repeated keys at varying part positions, positional and empty segments, optional -N of 1-25 digits), each with its own configuration map; ONE single-field projection and ONE filter key:\"l0\" OR key:\"l1\" per key (literals drawn from the values occurring in the sequence) are reused over the whole sequence and every step is compared with the per-name reference; non-trivial = at least two distinct names and some name carries a projected sub-name key in two segments",
 		HangIsViolation: true,
 	}
-	kit.Run(t, "C05", exhaustive, random, digitTails, history)
+	inPlace := kit.Class[c05HistCase]{
+		Name: "in-place-result-histories", Quick: 20000, Thorough: 600000,
+		Gen: c05GenInPlace, Check: c05HistCheck, NonTrivial: func(c c05HistCase) bool {
+			for j := 1; j < len(c.Names); j++ {
+				if len(c.Names[j]) == len(c.Names[j-1]) && string(c.Names[j]) != string(c.Names[j-1]) {
+					return true
+				}
+			}
+			return false
+		}, MinNonTrivial: 4000,
+		Rule:            "as reused-extractor-histories, but ONE Result is carried from step to step and updated in place the way a streaming caller does (name overwritten in its own buffer, configuration over keys {k,goos,goarch,pkg} changed through SetConfig, including deletions and values longer or shorter than the old ones), in three modes: never cloned, replaced by its Clone before every step, cloned before every odd step; 60% of the names are same-length rearrangements of their predecessor (two adjacent bytes swapped around a separator); non-trivial = two consecutive different names of equal length",
+		HangIsViolation: true,
+	}
+	kit.Run(t, "C05", exhaustive, random, digitTails, history, inPlace)
 }
